@@ -115,6 +115,7 @@ impl<E: Pairing> MultilinearPC<E> {
         ck: &CommitterKey<E>,
         polynomial: &impl MultilinearExtension<E::ScalarField>,
     ) -> Commitment<E> {
+        assert_eq!(polynomial.num_vars(), ck.nv, "Invalid size of polynomial");
         let nv = polynomial.num_vars();
         let scalars: Vec<_> = polynomial
             .to_evaluations()
@@ -134,6 +135,7 @@ impl<E: Pairing> MultilinearPC<E> {
         point: &[E::ScalarField],
     ) -> Proof<E> {
         assert_eq!(polynomial.num_vars(), ck.nv, "Invalid size of polynomial");
+        assert_eq!(point.len(), ck.nv, "Invalid size of point");
         let nv = polynomial.num_vars();
         let mut r: Vec<Vec<E::ScalarField>> = (0..nv + 1).map(|_| Vec::new()).collect();
         let mut q: Vec<Vec<E::ScalarField>> = (0..nv + 1).map(|_| Vec::new()).collect();
@@ -176,6 +178,7 @@ impl<E: Pairing> MultilinearPC<E> {
         value: E::ScalarField,
         proof: &Proof<E>,
     ) -> bool {
+        assert_eq!(point.len(), vk.nv, "Invalid size of point");
         let left = E::pairing(commitment.g_product.into_group() - &vk.g.mul(value), vk.h);
 
         let g_mul = vk.g.into_group().batch_mul(point);
